@@ -31,13 +31,14 @@ Default == [f \in Flags |-> Flag[f][1]]
 NonDefault(c) == {f \in Flags : c[f] # Default[f]}
 \* flags that must not change what the property's model says
 Neutral == [
+  C01 |-> {"timeout", "shim", "banner", "sessions", "debug", "grace", "vmid", "ids"},      \* request / response correlation of the relay
   C02 |-> {"timeout", "shim", "banner", "health", "debug", "grace", "vmid"},      \* request fidelity (not sessions / ids: they rewrite Cookie, identity, Authorization)
   C03 |-> {"timeout", "health", "debug", "grace", "vmid", "ids"},                  \* response fidelity (not shim / banner: HTML; not sessions: Set-Cookie)
   C04 |-> {"timeout", "shim", "banner", "sessions", "debug", "grace", "vmid", "ids"}, \* de-duplication
   C08 |-> {"timeout", "shim", "banner", "sessions", "debug", "grace", "vmid", "ids"}  \* back-off of the poll loop
 ]
 \* a time-out of 1 s is neutral only where nothing legitimately takes longer (no megabyte bodies, no held calls)
-TimeoutOK == [C02 |-> {"default", "none", "long"}, C03 |-> {"default", "none", "long"}, C04 |-> {"default", "none", "long"},
+TimeoutOK == [C01 |-> {"default", "none", "long"}, C02 |-> {"default", "none", "long"}, C03 |-> {"default", "none", "long"}, C04 |-> {"default", "none", "long"},
               C08 |-> {"default", "none", "long", "1s"}]
 
 \* the default, and everything within two neutral flags of it
